@@ -1,7 +1,7 @@
 #!/bin/sh
 # tools/runall.sh [quick|thorough] : run every registered check on /repo, one line per check
 tier=${1:-quick}
-cd /verif
+cd "$(dirname "$0")/.."
 for p in $(python3 -c "import json;print(' '.join(c['property_id'] for c in json.load(open('MANIFEST.json'))['checks']))") $2; do
   s=$(date +%s)
   out=$(./vcheck $p --tier $tier 2>&1)
